@@ -12,6 +12,20 @@ from pyasn1.compat.octets import oct2int, null, ensureString
 
 implementation = platform.python_implementation()
 
+
+def to_string(number):
+    """Decimal text of an integer for messages and printing.
+
+    Never fails: beyond the interpreter's limit on int -> str conversion
+    (sys.set_int_max_str_digits) the hexadecimal form is given instead.
+    """
+    try:
+        return str(number)
+
+    except ValueError:
+        return hex(number)
+
+
 if sys.version_info[0] < 3 or implementation != 'CPython':
     from binascii import a2b_hex, b2a_hex
 
